@@ -113,6 +113,8 @@ use std::sync::atomic::{AtomicBool, AtomicU64, Ordering};
 pub static JOURNAL: std::sync::Mutex<Option<(String, String)>> = std::sync::Mutex::new(None);
 pub static HEARTBEAT: [AtomicU64; 64] = [const { AtomicU64::new(0) }; 64];
 pub static ACTIVE: [AtomicBool; 64] = [const { AtomicBool::new(false) }; 64];
+/// 1 = inside the case executor, 2 = inside proptest (generation / shrinking), 3 = re-executing a failure
+pub static PHASE: [AtomicU64; 64] = [const { AtomicU64::new(0) }; 64];
 
 /// enable journaling into `dir` for the engine named `engine` (None = off)
 pub fn set_journal(j: Option<(String, String)>) {
@@ -144,7 +146,9 @@ pub fn start_watchdog(prop: String, limit_s: u64) {
                     last[w] = h;
                     since[w] = std::time::Instant::now();
                 } else if since[w].elapsed().as_secs() >= limit_s {
-                    println!("INCONCLUSIVE property={} worker {} made no progress for {}s (hang; the case being executed is in the worker's journal file)", prop, w, limit_s);
+                    let ph: Vec<u64> = (0..16).map(|i| PHASE[i].load(Ordering::Relaxed)).collect();
+                    let hb: Vec<u64> = (0..16).map(|i| HEARTBEAT[i].load(Ordering::Relaxed)).collect();
+                    println!("INCONCLUSIVE property={} worker {} made no progress for {}s (hang; the case being executed is in the worker's journal file; phases {:?}; heartbeats {:?})", prop, w, limit_s, ph, hb);
                     std::process::exit(2);
                 }
             }
@@ -190,6 +194,10 @@ where
     T: std::fmt::Debug + Clone + Send + serde::Serialize + 'static,
     F: Fn(&T) -> CaseReport + Sync,
 {
+    // once worker k has a failure, workers with a higher index stop searching (the reported
+    // violation is the one of the lowest worker index, so the outcome stays deterministic)
+    let stop_above = std::sync::atomic::AtomicUsize::new(usize::MAX);
+    let stop_above = &stop_above;
     let results: Vec<(Acc, Option<(T, Violation)>)> = std::thread::scope(|sc| {
         let hs: Vec<_> = (0..workers)
             .map(|w| {
@@ -202,7 +210,11 @@ where
                         cases,
                         failure_persistence: None,
                         rng_seed: rng_seed(seed, w, salt),
-                        max_shrink_iters: 4000,
+                        // proptest's own shrinking is only a first pass (the structural minimiser runs
+                        // afterwards); flat-map regenerations are capped because proptest otherwise
+                        // regenerates `cases` times per level without calling the test when it bails out
+                        max_shrink_iters: 1500,
+                        max_flat_map_regens: 64,
                         max_global_rejects: 1 << 20,
                         ..Config::default()
                     });
@@ -217,6 +229,9 @@ where
                         if w < 64 {
                             HEARTBEAT[w].fetch_add(1, Ordering::Relaxed);
                         }
+                        if w > stop_above.load(Ordering::Relaxed) && !failed.get() {
+                            return Ok(());
+                        }
                         if let (Some(f), Some((_, engine))) = (jfile.borrow_mut().as_mut(), journal.as_ref()) {
                             use std::io::{Seek, Write};
                             let body = serde_json::to_vec(&json!({"property": prop_id, "engine": engine, "case": &t, "observed": "journal entry: the process died while executing this case"})).unwrap_or_default();
@@ -224,7 +239,13 @@ where
                             let _ = f.write_all(&body);
                             let _ = f.set_len(body.len() as u64);
                         }
+                        if w < 64 {
+                            PHASE[w].store(1, Ordering::Relaxed);
+                        }
                         let rep = exec(&t);
+                        if w < 64 {
+                            PHASE[w].store(2, Ordering::Relaxed);
+                        }
                         let searching = !failed.get();
                         if searching {
                             let mut a = acc.borrow_mut();
@@ -263,6 +284,7 @@ where
                                 return Ok(());
                             }
                             failed.set(true);
+                            stop_above.fetch_min(w, Ordering::Relaxed);
                             return Err(TestCaseError::fail(v.msg));
                         }
                         Ok(())
@@ -272,6 +294,9 @@ where
                         Err(TestError::Fail(why, t)) => {
                             // re-execute (library-side randomness such as RandomState can make a
                             // failure flaky: retry, and report the observed failure in any case)
+                            if w < 64 {
+                                PHASE[w].store(3, Ordering::Relaxed);
+                            }
                             let mut v = None;
                             for _ in 0..8 {
                                 v = exec(&t).violation;
